@@ -383,7 +383,7 @@ HEAD = ("Require Import DS.Parser DS.ParserIx DS.Rs2vLib DS.Rs2vLib2 DS.ParserIx
         "Local Open Scope bool_scope.\n")
 
 
-def generate(api):
+def generate(api, force_stub=False):
     rel, irel = "duckscript/src/parser.rs", "duckscript/src/types/instruction.rs"
     text = HEAD
     common_err = None
@@ -404,6 +404,8 @@ def generate(api):
         common_err = str(e)
     for rust, flag, build, stub in FUNCTIONS:
         try:
+            if force_stub:
+                raise Rs2vError("translation rejected: %s" % force_stub)
             if common_err:
                 raise Rs2vError(common_err)
             body = build(src, statics, structs)
